@@ -494,8 +494,18 @@ fn hostile_oid(class: &str) -> Vec<u64> {
 		vec![3, 1]
 	} else if class.ends_with("second-arc-40") {
 		vec![1, 40]
+	} else if class.ends_with("second-arc-39") {
+		vec![1, 39, u64::MAX]
 	} else if class.ends_with("huge-arc") {
 		vec![2, u64::MAX]
+	} else if class.ends_with("arc2-limit") {
+		vec![2, u64::MAX - 80] // 80 + arc no longer fits 64 bits
+	} else if class.ends_with("arc2-below-limit") {
+		vec![2, u64::MAX - 81, 5]
+	} else if class.ends_with("arc2-half") {
+		vec![2, 1 << 63, 1]
+	} else if class.ends_with("later-arc-max") {
+		vec![2, 5, u64::MAX, 0, u64::MAX]
 	} else {
 		(0..1000).map(|i| (i % 7) as u64 + 1).collect()
 	}
